@@ -355,8 +355,13 @@ func (n *SimNode) inLatestModelSet() bool {
 }
 
 func (c *Cluster) onFastForwardDone(a *SimNode, err error) {
+	// "between resets the anchor never moves backwards": a (re-)fast-forward is a reset
+	a.lastAnchor = -1
 	if err != nil {
 		c.stats.probe("fastforward-error")
+		if debugTrace {
+			fmt.Fprintf(os.Stderr, "  fast-forward of node %d failed: %v\n", a.idx, err)
+		}
 		return
 	}
 	if !a.running() {
